@@ -410,6 +410,30 @@ def check_lexicographic(ctx):
             if not isinstance(b, ast.BoolOp):
                 continue
             ks = [_cmpkind(v) for v in b.values]
+            # guarded form `<X>ln == <Y>ln and <P>col < <Q>col`: the column pair must belong to the line pair of the guard
+            if isinstance(b.op, ast.And):
+                def pref(e, suffixes):
+                    if isinstance(e, ast.NamedExpr):
+                        e = e.value if not isinstance(e.value, ast.Compare) else e.target
+                    t = norm(e).split('.')[-1]
+                    for sfx in suffixes:
+                        if t == sfx:
+                            return ''
+                        if t.endswith('_' + sfx):
+                            return t[:-len(sfx) - 1]
+                    return None
+                eqs = [v.value if isinstance(v, ast.NamedExpr) else v for v in b.values]
+                line_eq = [v for v in eqs if isinstance(v, ast.Compare) and _cmpkind(v) == ('L', 'eq')]
+                col_ord = [v for v in eqs if isinstance(v, ast.Compare) and _cmpkind(v) == ('C', 'ord')]
+                if len(line_eq) == 1 and len(col_ord) == 1:
+                    lp = {pref(line_eq[0].left, ('ln', 'lineno')), pref(line_eq[0].comparators[0], ('ln', 'lineno'))}
+                    cp = {pref(col_ord[0].left, ('col', 'col_offset')), pref(col_ord[0].comparators[0], ('col', 'col_offset'))}
+                    if None not in lp and None not in cp and len(lp) == 2 and len(cp) == 2:
+                        n += 1
+                        ctx.check('R6.5', lp == cp, fi.module, fi.qualname, norm(b, 120),
+                                  f'columns of {sorted(cp)} are compared under the guard that lines of {sorted(lp)} are equal: the column test '
+                                  f'decides on positions that are not on the same line', b.lineno,
+                                  sample={'function': fi.key, 'compare': norm(b, 100), 'form': 'guarded'})
             if ('L', 'ord') not in ks:
                 continue
             n += 1
